@@ -37,6 +37,7 @@ def plan(tier):
 def required(tier):
     return {
         "parsers.with_accept_all_filter": 20,
+        "parsers.prefix_mode": 20,
         "nontrivial": 1500 if tier == "quick" else 15000,
         "forests": 5000,
         "index.out_of_range_checked": 5000,
@@ -105,11 +106,19 @@ def one_grammar(ctx, mon, name, g, alphabet, maxlen):
         filt = ctx.rng.random() < 0.2
         if filt:
             ctx.count("parsers.with_accept_all_filter")
-        case0 = {"grammar": text, "g": g.to_json(), "tables": tables, "filter": filt}
+        # forests of sentence prefixes (consume_input=False) merge several accepted heads into one
+        # root: packing, counting and indexing must be consistent there too
+        prefix_mode = ctx.rng.random() < 0.15
+        if prefix_mode:
+            ctx.count("parsers.prefix_mode")
+        case0 = {"grammar": text, "g": g.to_json(), "tables": tables, "filter": filt, "prefix_mode": prefix_mode}
+        kw = {"dynamic_filter": accept_all} if filt else {}
+        if prefix_mode:
+            kw["consume_input"] = False
         try:
             with pgx.watchdog(20):
                 pg = pgx.grammar(text)
-                parser = pgx.glr(pg, tables=pgx.LALR if tables == "LALR" else pgx.SLR, **({"dynamic_filter": accept_all} if filt else {}))
+                parser = pgx.glr(pg, tables=pgx.LALR if tables == "LALR" else pgx.SLR, **kw)
         except pgx.CaseTimeout:
             ctx.inconc("construction timeout: %r" % text)
             continue
@@ -124,7 +133,7 @@ def one_grammar(ctx, mon, name, g, alphabet, maxlen):
 
 
 def check_input(ctx, mon, g, pg, parser, pkeys, case, inp, tree_limit=250):
-    key = (case["grammar"], case["tables"], inp, case.get("filter", False))
+    key = (case["grammar"], case["tables"], inp, case.get("filter", False), case.get("prefix_mode", False))
     try:
         with pgx.watchdog(60):
             o = glrobs.parse_glr(parser, inp)
@@ -161,7 +170,7 @@ def judge(ctx, mon, g, pkeys, case, inp, o, key, tree_limit):
         ctx.case(key, True, sample={"grammar": case["grammar"], "input": inp, "len": "LoopError"})
         ctx.count("loop.raised")
         refcount = cfg.Chart(g, inp, skip=cfg.skip_none).count()
-        if refcount != cfg.INF:
+        if refcount != cfg.INF and not case.get("prefix_mode"):
             ctx.violation("loop-error-on-finite", case, "len(forest) raised LoopError but the input has %s derivations" % refcount)
         try:
             f.solutions
@@ -218,7 +227,10 @@ def judge(ctx, mon, g, pkeys, case, inp, o, key, tree_limit):
         chart = cfg.Chart(g, inp, skip=cfg.skip_none)
         T = chart.count()
         ctx.count("count.compared_with_reference")
-        if T != cfg.INF and n > T and not dups:
+        if case.get("prefix_mode"):
+            # (the reference counts the derivations of the whole input only)
+            pass
+        elif T != cfg.INF and n > T and not dups:
             # more trees than derivations exist although no link holds identical alternatives
             ctx.violation("count-exceeds-number-of-derivations", case, "len(forest)=%s, the input has only %s derivations and no link holds identical alternatives" % (n, T))
             return
@@ -299,7 +311,10 @@ def replay(case, ctx):
     mon.install()
     try:
         pg = pgx.grammar(case["grammar"])
-        parser = pgx.glr(pg, tables=pgx.LALR if case["tables"] == "LALR" else pgx.SLR, **({"dynamic_filter": accept_all} if case.get("filter") else {}))
+        rkw = {"dynamic_filter": accept_all} if case.get("filter") else {}
+        if case.get("prefix_mode"):
+            rkw["consume_input"] = False
+        parser = pgx.glr(pg, tables=pgx.LALR if case["tables"] == "LALR" else pgx.SLR, **rkw)
         check_input(ctx, mon, g, pg, parser, pgx.prod_keys(pg), case, case["input"])
     finally:
         mon.uninstall()
